@@ -13,6 +13,7 @@ LEVEL_TEXT["C02"] = (
     "istft o stft: for EVERY window (COLA is not needed), overlap < nwin <= nfft, even nfft, range, method and signal: the frame count is (nx-overlap)/hop, the output length nwin+(nseg-1)hop, and "
     "y[t] = x[t] at every sample whose accumulated weight passes the code's guard (> nseg eps). "
     "No division by zero in istft: every output sample is a quotient by the guarded weight, which is non-zero for every window, frame list and nseg (0 included: the zero-frame 0/0 was repaired in /repo, commit 4d79298). "
+    "UNCONDITIONAL (Props/C02Total): with C01's fftC_eq / fftR_eq the hypotheses are discharged for the library's own transform models at every length 1 <= n < 2^31 -- ifft_eq_idft_total, ifft_fft_total, fft_ifft_total, irfft_eq_total, irfft_rfft_total, istft_stft_total. "
     "Tie: correspondence of the model with the library (ifft, irfft both forms + rejected sizes, iscola outcome incl. hop <= 0, stft frames of all ranges, istft of stft frames AND of arbitrary frames with arbitrary/negative windows): "
     "stft/istft/iscola bit-exact today (tolerance 1e-11 of the line maximum), ifft/irfft <= 8e-13 (tolerance 1e-10; the forward model's chirp phase for prime sizes, see C01). "
     "Rejected calls (odd n by irfft / IfftPlanR / one-argument irfft / istft, wrong bin or frame counts, overlap >= nwin, empty inputs) are part of the histories the harness runs: the model is a function of the "
